@@ -23,6 +23,9 @@ reported INCONCLUSIVE, never as a violation.
 
 Scenario families on top of the truncation enumeration (each judged only as far as the statement goes):
   two-split  the complete message cut in two at every offset (each framing byte alone at a segment edge);
+  flush      the transport honours the parser's pause, holds the following segments and hands them over
+             synchronously from inside resumeProducing(); deliverBody() is called after the dataReceived()
+             that carried the headers has returned (Content-Length, chunked and close-delimited bodies);
   tx         the request body producer's Deferred is still pending / already .called but its chain waits on
              an unfired Deferred / fired and pause()d while the response arrives, released before, in the
              middle, after the loss or never: the request Deferred must fire exactly once; if it fires with a
@@ -70,7 +73,8 @@ FLOORS = {"runs": 20000, "truncation_points": 5000, "deferred_response": 5000, "
           "family_two-split": 5000, "family_tx": 1000, "tx_called-waiting": 150, "tx_fired-paused": 150, "tx_unfired": 150,
           "family_reentry": 1000, "reentry_abort": 200, "reentry_pause-resume": 50, "family_raises": 500, "raise_runs": 300,
           "family_pair": 500, "second_exchanges_checked": 300, "edge_responses": 8,
-          "responses_chunked_plus_content_length": 12}
+          "responses_chunked_plus_content_length": 12, "family_flush": 1000, "reentrant_flushes_from_resumeProducing": 500,
+          "flush_with_cl": 50, "flush_with_chunked": 50, "flush_with_close": 50}
 READY = True
 
 NOBODY_CODES = (204, 304)
@@ -499,6 +503,8 @@ class Ex:
         self.delivered = False
         self.received = bytearray()
         self.tx = None
+        self.queue = []
+        self.nfed = 0
 
 
 class Harness:
@@ -549,6 +555,19 @@ class Harness:
 
         self.Body = Body
         self._P = None
+
+        class HoldingTransport(SimTransport):
+            """With .on_resume set: a transport that holds what arrives while the protocol has it paused and hands it
+            over synchronously from inside resumeProducing() (TLS transports behave like this)."""
+
+            on_resume = None
+
+            def resumeProducing(s):
+                SimTransport.resumeProducing(s)
+                if s.on_resume is not None:
+                    s.on_resume()
+
+        self.HoldingTransport = HoldingTransport
 
     def close(self):
         try:
@@ -621,10 +640,10 @@ class Harness:
         nc = self.nc
         del self.log.events[:]
         proto = nc.HTTP11ClientProtocol()
-        t = self.SimTransport()
+        t = self.HoldingTransport()
         proto.makeConnection(t)
         escaped = []
-        notes = {"abort_fired": 0, "aborts": 0, "second_started": False, "resumes": 0}
+        notes = {"abort_fired": 0, "aborts": 0, "second_started": False, "resumes": 0, "in_data_received": 0, "reentrant_flushes": 0, "cur": None}
         exs = []
         want_resume = []
 
@@ -714,14 +733,39 @@ class Harness:
                 prod.release()
 
         def feed(ex, segs):
-            n = 0
-            for seg in segs:
+            ex.queue = list(segs)
+            notes["cur"] = ex
+            pump(ex)
+            if ex.tx is not None and scn["tx"][1] == "mid":
+                ex.tx.release()
+            if ex.policy == "ignore-pause" and ex.resp is not None and not ex.delivered:
+                deliver(ex)
+
+        def flush_held():
+            # called from inside transport.resumeProducing(): deliver the held segments now, unless we are inside the
+            # dataReceived() call of an outer delivery (which then simply goes on)
+            ex = notes.get("cur")
+            if ex is not None and not notes["in_data_received"] and ex.queue and not t.reading_paused:
+                before = len(ex.queue)
+                pump(ex)
+                if len(ex.queue) < before:
+                    notes["reentrant_flushes"] += 1
+
+        if scn.get("flush"):
+            t.on_resume = flush_held
+
+        def pump(ex):
+            while ex.queue:
+                seg = ex.queue[0]
+                n = ex.nfed
                 if want_resume and t.reading_paused:
                     b = want_resume.pop()
                     notes["resumes"] += 1
                     b.transport.resumeProducing()
                 if t.disconnecting:
                     break
+                if not ex.queue or ex.queue[0] is not seg:
+                    continue  # a re-entrant flush (resume above) already took it
                 if t.reading_paused:
                     if ex.policy == "ignore-pause" and ex.budget > 0:
                         ex.budget -= 1
@@ -735,18 +779,18 @@ class Harness:
                     proto.abort().addCallback(lambda _: notes.__setitem__("abort_fired", notes["abort_fired"] + 1))
                     if t.disconnecting:
                         break
+                ex.queue.pop(0)
+                ex.nfed += 1
+                ex.received += seg
+                notes["in_data_received"] += 1
                 try:
                     proto.dataReceived(seg)
                 except BaseException as e:
                     escaped.append("dataReceived: %s: %s" % (type(e).__name__, e))
-                ex.received += seg
-                n += 1
+                finally:
+                    notes["in_data_received"] -= 1
                 if ex.policy == "after-return" and ex.resp is not None and not ex.delivered:
                     deliver(ex)
-            if ex.tx is not None and scn["tx"][1] == "mid":
-                ex.tx.release()
-            if ex.policy == "ignore-pause" and ex.resp is not None and not ex.delivered:
-                deliver(ex)
 
         ex1 = Ex(desc, policy, budget)
         sec = scn.get("second")
@@ -811,7 +855,7 @@ def check(ctx, h, ex, k, segs, out, which="first"):
     raises = scn.get("raises")
     wit = {"method": desc["method"], "persistent": desc["persistent"], "response": desc["raw"], "response_latin1": desc["raw"].decode("latin-1"),
            "source": desc["source"], "framing": desc["framing"], "malformed": desc["malformed"], "exchange": which,
-           "scenario": {x: scn[x] for x in ("tx", "reentry", "raises") if scn.get(x) is not None},
+           "scenario": {x: scn[x] for x in ("tx", "reentry", "raises", "flush") if scn.get(x) is not None},
            "lost_after_k": k, "segment_lengths": [len(s) for s in segs][:60], "policy": policy, "bytes_delivered_to_protocol": len(received),
            "reference": {x: ref[x] for x in ("head", "code", "interim", "framing", "body_state")}, "reference_body_length": len(ref["body"]),
            "deferred": [(kind, type(v.value).__name__ if kind == "failure" else "code %s" % v.code) for kind, v in fired],
@@ -1051,6 +1095,23 @@ def run_response(ctx, h, desc, rng, sample=False):
     if n <= 170:
         for cut in range(1, n):
             one(ctx, h, desc, rng, n, [raw[:cut], raw[cut:]], rng.choice(DELIVERING), family="two-split")
+    # ---- a transport that holds segments while paused and hands them over from inside resumeProducing(), with
+    #      deliverBody() called after the dataReceived() that carried the headers has returned
+    if desc["framing"] != "none":
+        he = desc["hdr_end"]
+        for j in range(9):
+            k = rng.choice([n, n, desc["msg_end"], rng.randrange(he, n + 1)])
+            prefix = raw[:k]
+            if j % 3 == 0:
+                segs = [prefix[:he]] + ([prefix[he:]] if k > he else [])
+            elif j % 3 == 1:
+                segs = [prefix[:he]] + split_random(rng, prefix[he:])
+            else:
+                segs = split_random(rng, prefix)
+            out = one(ctx, h, desc, rng, k, segs, "after-return", {"flush": True}, family="flush")
+            ctx.count("reentrant_flushes_from_resumeProducing", out["notes"]["reentrant_flushes"])
+            if out["notes"]["reentrant_flushes"]:
+                ctx.count("flush_with_" + desc["framing"])
     # ---- the request is still being transmitted while the response arrives (body producer's Deferred pending,
     #      .called-but-waiting, or fired-and-paused), released before / in the middle / after the loss / never
     if desc["method"] != b"HEAD":
